@@ -174,7 +174,8 @@ func (fr *Frame) frameObligations(ri int, r retSite) {
 	sort.Strings(names)
 	a0 := fc.get(fr.pre, hAlloc)
 	for _, v := range names {
-		if v == hAlloc || v == hIter || whole[v] {
+		if v == hAlloc || v == hIter || whole[v] || strings.HasPrefix(v, "$ghost:") || v == "$xmltext" {
+			// ghost variables are not program state
 			continue
 		}
 		cur := r.st.vars[v]
